@@ -25,7 +25,7 @@ TARGETS = S.NAME_POOL + S.CONFUSABLE + ['', ' ', 'B', 'Z', 'z', '~', '!', '01', 
 @st.composite
 def strategy_(draw):
     case = draw(S.pipeline_case(WEIGHTS, vary=('msa', 'okta', 'sep', 'base'), p_default_prms=0.1,
-                                base_p_default=0.1))
+                                base_p_default=0.1, anomalies=True, anomaly_negative=False))
     names = sorted(set(r[0] for r in case['rows']))
     how = draw(st.sampled_from(['reverse', 'swap', 'fresh', 'fresh', 'fresh']))
     if how == 'swap' and len(names) >= 2:
